@@ -1,9 +1,10 @@
-(** C15 - durations parse, print, add and compare exactly (partial: the print/parse round trip
-    and "the rendering is Go's" are evaluated by the correspondence run - against an independent
-    implementation of Go's algorithm - and on samples; they are not unbounded theorems). *)
+(** C15 - durations parse, print, add and compare exactly (partial in one clause: that the
+    rendering is *Go's* canonical one is evaluated by the correspondence run against an
+    independent implementation of Go's algorithm; everything else, the print/parse round trip
+    included, is proved for every duration). *)
 From Coq Require Import String Ascii.
 From Cel.Model Require Import Builtins.
-From Cel.Proofs Require Import NumericProofs DurationProofs.
+From Cel.Proofs Require Import NumericProofs DurationProofs DurationRoundtrip.
 Open Scope Z_scope.
 
 (** Addition, subtraction and comparison act on the exact nanosecond counts; a result outside
@@ -34,13 +35,14 @@ Theorem C15_format_sign : forall d, 0 < d -> in_i64 d = true ->
   format_duration (- d) = 45%N :: format_duration d.
 Proof. exact format_neg. Qed.
 
-(** duration(string(d)) == d on evaluated durations. *)
-Theorem C15_roundtrip_partial :
-  forallb dur_rt [0; 1; -1; 999; 1000; 1001; -1500; 999999; 1000000; 1500000; 999999999; 1000000000;
-                  1000000001; 59999999999; 60000000000; 3600000000000; 5400000000000; 4265176228;
-                  629493380207408; 9223372036854775807; -9223372036854775808; -9223372036854775807;
-                  86400000000000; -2000000000; 1100; 2200000; 3300000000] = true.
-Proof. exact roundtrip_samples. Qed.
+(** duration(string(d)) == d for every duration representable in signed 64-bit nanoseconds. *)
+Theorem C15_roundtrip : forall d, in_i64 d = true ->
+  parse_duration (format_duration_str d) = Some d /\
+  (let! s := b_string (VDur d) in run_builtin FDuration [s]) = Ok (VDur d).
+Proof.
+  intros d Hd. pose proof (duration_roundtrip d Hd) as H. split; [exact H|].
+  cbn [b_string obind run_builtin]. now rewrite H.
+Qed.
 
 Example C15_ex_format :
   format_duration_str 5400000000000 = $"1h30m0s" /\ format_duration_str 1500000 = $"1.5ms" /\
@@ -51,4 +53,4 @@ Print Assumptions C15_arith_exact.
 Print Assumptions C15_parse_language.
 Print Assumptions C15_rejected_spellings.
 Print Assumptions C15_format_sign.
-Print Assumptions C15_roundtrip_partial.
+Print Assumptions C15_roundtrip.
